@@ -74,4 +74,22 @@ def caughtOverflows (limit : Nat) : Nat → Acts
 def admitted (limit : Nat) (s : Stack) : Nat :=
   ((List.range (limit + 4)).filter (fun d => (runAct limit (nest d) s).2 == .done)).length
 
+/-! ### Handles: the `Otto` value an embedder holds (otto.go: `runtime`, `Interrupt`) and the back pointer
+`runtime.otto` through which the evaluator finds the channel it polls and the handle host functions are given -/
+
+structure Handle where
+  id : Nat                    -- identity of the Otto value
+  intr : Option Nat           -- its Interrupt channel (identity), none = nil
+  back : Nat                  -- runtime.otto: the handle the runtime polls / passes to host functions
+deriving DecidableEq, Repr
+
+/-- Otto.Copy (otto.go:635): a fresh handle around the cloned runtime, no channel, back pointer to itself -/
+def Handle.copy (_ : Handle) (fresh : Nat) : Handle := { id := fresh, intr := none, back := fresh }
+
+/-- the channel a runtime polls: the one of the handle its back pointer names -/
+def polled (hs : List Handle) (h : Handle) : Option Nat :=
+  match hs.find? (fun x => x.id == h.back) with
+  | some x => x.intr
+  | none => none
+
 end OttoVerif.C18
